@@ -199,42 +199,106 @@ def register_traverse(reg):
           "fields": {"hybrid": "bool", "pad_flag": "bool", "files": "list", "pieces": "bytearray", "piece_layers": "dict",
                      "piece_length": "int", "path": "str"}}
     LEAF = "result['']"
+    ISF = "fs_isfile(path)"
+    AM = "(self.piece_length // 16384)"
+    NONEMPTY = f"{ISF} and len(fs_data(path)) > 0"
+    PRP = "piece_roots(P, hasher.amount)"
+    PADDED = ("(hasher.root == mroot(hasher.layer_hashes) and is_pow2(len(hasher.layer_hashes)) and "
+              f"len({PRP}) <= len(hasher.layer_hashes) and (len(hasher.layer_hashes) < 2 * len({PRP}) or len(hasher.layer_hashes) == 1) and "
+              f"hasher.layer_hashes == cat({PRP}, repeat_digest(mroot(zero_digests(hasher.amount)), len(hasher.layer_hashes) - len({PRP}))))")
+    leaf = [
+        ("C02", "leaf_records_the_exact_length", f"('' in result) and {LEAF}['length'] == len(fs_data(path))"),
+        ("C02", "empty_file_carries_no_root", f"implies(len(fs_data(path)) == 0, not ('pieces root' in {LEAF}))"),
+        ("C02", "non_empty_file_carries_the_hashers_root",
+         f"implies(len(fs_data(path)) > 0, ('pieces root' in {LEAF}) and {LEAF}['pieces root'] == hasher.root)"),
+        ("C02", "the_hasher_works_with_the_blocks_per_piece_of_this_torrent", f"implies(len(fs_data(path)) > 0, hasher.amount == {AM})"),
+        # the root of a non-empty file, in four small steps (each later one takes the earlier conclusions as hypotheses; callers
+        # get all of them): the iteration consumed the whole file; the hasher's final list is the piece layer of what was consumed,
+        # padded; the definition of file_root applies to it; hence the leaf's root is the BEP 52 root of the content
+        ("C02", "the_iteration_consumed_the_whole_file", "implies(len(fs_data(path)) > 0, P == fs_data(path))"),
+        ("C02", "final_layer_hashes_are_the_padded_piece_layer_of_what_was_consumed",
+         "implies(len(fs_data(path)) > 0, " + PADDED + ")"),
+        ("C02", "definition_of_file_root_applies",
+         "implies(len(fs_data(path)) > 0, implies(" + PADDED + ", with_lemma(file_root_def(P, hasher.amount, hasher.layer_hashes), "
+         "hasher.root == file_root(P, hasher.amount))))"),
+        ("C02", "pieces_root_is_the_bep52_root_of_the_content",
+         "implies(len(fs_data(path)) > 0, implies(P == fs_data(path) and hasher.root == file_root(P, hasher.amount), "
+         f"{LEAF}['pieces root'] == file_root(fs_data(path), hasher.amount)))"),
+        ("C02", "piece_layers_entry_exactly_for_files_larger_than_a_piece",
+         "implies(len(fs_data(path)) > 0, (k in self.piece_layers) == ((k in old(self.piece_layers)) or "
+         "(len(fs_data(path)) > self.piece_length and k == hasher.root))) and "
+         "implies(len(fs_data(path)) == 0, (k in self.piece_layers) == (k in old(self.piece_layers)))"),
+        ("C02", "the_entry_holds_the_collected_layer_hashes",
+         "implies(len(fs_data(path)) > self.piece_length, self.piece_layers[hasher.root] == layers)"),
+        ("C03", "hybrid_lists_the_file_then_its_padding_entry",
+         "implies(self.hybrid, len(self.files) >= len(old(self.files)) + 1 and "
+         "self.files[len(old(self.files))]['length'] == len(fs_data(path)) and "
+         "self.files[len(old(self.files))]['path'] == relpath_components(path, self.path))"),
+        ("C03", "v2_only_leaves_the_v1_list_alone", "implies(not self.hybrid, self.files == old(self.files))"),
+    ]
+    # the two leaf clauses below take "the leaf's root is the BEP 52 root of the content" as their hypothesis: that is the
+    # conclusion of pieces_root_is_the_bep52_root_of_the_content above, so callers (who get every clause) have both
+    ROOT_OK = f"result['']['pieces root'] == file_root(fs_data(path), {AM})"
+    walk = [
+        ("C02", "file_tree_mirrors_the_directory",
+         f"implies(not ({NONEMPTY}), with_lemma(tree_unfold(path, {AM}), result == tree_of(path, {AM})))"),
+        ("C02", "file_tree_leaf_of_a_non_empty_file",
+         f"implies({NONEMPTY} and {ROOT_OK}, with_lemma(tree_unfold(path, {AM}), result == tree_of(path, {AM})))"),
+        ("C02", "piece_layers_keys_are_exactly_the_roots_of_the_files_larger_than_a_piece",
+         f"implies(not ({NONEMPTY}), with_lemma(layered_unfold(path, k, self.piece_length), "
+         "(k in self.piece_layers) == ((k in old(self.piece_layers)) or layered_under(path, k, self.piece_length))))"),
+        ("C02", "piece_layers_key_of_a_file_larger_than_a_piece",
+         f"implies({NONEMPTY} and {ROOT_OK}, with_lemma(layered_unfold(path, k, self.piece_length), "
+         "(k in self.piece_layers) == ((k in old(self.piece_layers)) or layered_under(path, k, self.piece_length))))"),
+    ]
     C("torrentfile.torrent.TorrentAssembler._traverse",
       props=["C02", "C03", "C10"],
       params={"self": TA, "path": "str"},
       setup=_assembler_setup,
       modifies=["self.piece_layers", "self.files", "self.pieces"],
-      exists={"hasher": FH, "layers": "bytearray"},
+      exists={"hasher": FH, "layers": "bytearray", "P": "bytes"},
       ghost={"k": "bytes"},
-      requires=["fs_isfile(path)", "self.piece_length >= 16384 and is_pow2(self.piece_length)"],
+      fork_checks=True, shards=8,
+      requires=["self.piece_length >= 16384 and is_pow2(self.piece_length)"],
       returns="dict",
-      ensures=[
-          ("C02", "leaf_records_the_exact_length", f"('' in result) and {LEAF}['length'] == len(fs_data(path))"),
-          ("C02", "empty_file_carries_no_root", f"implies(len(fs_data(path)) == 0, not ('pieces root' in {LEAF}))"),
-          ("C02", "non_empty_file_carries_the_hashers_root",
-           f"implies(len(fs_data(path)) > 0, ('pieces root' in {LEAF}) and {LEAF}['pieces root'] == hasher.root)"),
-          ("C02", "piece_layers_entry_exactly_for_files_larger_than_a_piece",
-           "implies(len(fs_data(path)) > 0, (k in self.piece_layers) == ((k in old(self.piece_layers)) or "
-           "(len(fs_data(path)) > self.piece_length and k == hasher.root))) and "
-           "implies(len(fs_data(path)) == 0, (k in self.piece_layers) == (k in old(self.piece_layers)))"),
-          ("C02", "the_entry_holds_the_collected_layer_hashes",
-           "implies(len(fs_data(path)) > self.piece_length, self.piece_layers[hasher.root] == layers)"),
-          ("C03", "hybrid_lists_the_file_then_its_padding_entry",
-           "implies(self.hybrid, len(self.files) >= len(old(self.files)) + 1 and "
-           "self.files[len(old(self.files))]['length'] == len(fs_data(path)) and "
-           "self.files[len(old(self.files))]['path'] == relpath_components(path, self.path))"),
-          ("C03", "v2_only_leaves_the_v1_list_alone", "implies(not self.hybrid, self.files == old(self.files))"),
-      ],
+      ensures=[(p_, l_, f"implies({ISF}, {e_})") for p_, l_, e_ in leaf] + walk,
       raises={"BaseException": {}},
       loops={0: {"protocol": True, "modifies": ["hasher", "layers", "self.pieces"],
                  "capture": {"files_before": "self.files", "layers_before_loop": "self.piece_layers"},
+                 "ghost_init": {"P": "b''", "np": "0"},
+                 "ghost_step": {"P": "P + D", "np": "np + 1"},
+                 "lemmas_after_body": ["proots_step(P, D, len(blocks) - len(leaves(D)), hasher.amount, np)",
+                                       "file_root_def(fs_data(path), hasher.amount, hasher.layer_hashes)"],
                  "invariant": [
                      ("hasher_frame", "hasher.piece_length == self.piece_length and hasher.amount * 16384 == hasher.piece_length and "
                                       "hasher.amount >= 1 and is_pow2(hasher.amount) and hasher.hybrid == self.hybrid"),
                      ("nothing_else_touched", "self.files == files_before and self.piece_layers == layers_before_loop"),
+                     ("stream", "P + file_tail(hasher.current) == fs_data(path)"),
+                     ("before_the_end_the_layer_hashes_are_the_piece_roots",
+                      "implies(not hasher.end, hasher.layer_hashes == piece_roots(P, hasher.amount) and np >= 0 and "
+                      "(len(P) == np * self.piece_length or file_at_eof(hasher.current)))"),
+                     ("after_the_end_the_root_is_over_the_padded_piece_layer_of_the_whole_file",
+                      "implies(hasher.end, P == fs_data(path) and hasher.root == file_root(fs_data(path), hasher.amount) and "
+                      "hasher.root == mroot(hasher.layer_hashes) and "
+                      "is_pow2(len(hasher.layer_hashes)) and len(piece_roots(P, hasher.amount)) <= len(hasher.layer_hashes) and "
+                      "(len(hasher.layer_hashes) < 2 * len(piece_roots(P, hasher.amount)) or len(hasher.layer_hashes) == 1) and "
+                      "hasher.layer_hashes == cat(piece_roots(P, hasher.amount), repeat_digest(mroot(zero_digests(hasher.amount)), "
+                      "len(hasher.layer_hashes) - len(piece_roots(P, hasher.amount)))))"),
+                 ]},
+             1: {"index": "_i1", "modifies": ["self.piece_layers", "self.files", "self.pieces"],
+                 "lemmas_after_body": [f"tree_step(sorted_names(path), _i1 - 1, path, {AM})",
+                                       "layered_step(sorted_names(path), _i1 - 1, path, k, self.piece_length)"],
+                 "invariant": [
+                     ("tree_so_far", f"tree == tree_first(sorted_names(path), _i1, path, {AM})"),
+                     ("layers_so_far", "(k in self.piece_layers) == ((k in old(self.piece_layers)) or "
+                                       "layered_under_first(sorted_names(path), _i1, path, k, self.piece_length))"),
+                     ("frame", "self.piece_length == old(self.piece_length) and self.hybrid == old(self.hybrid)"),
                  ]}},
-      notes="leaf case (path is a regular file), for every file size and piece length; the directory branch (sorted(os.listdir), "
-            "recursion) is decided by the bounded harness")
+      notes="the creator behind the command line, the whole walk: per file the FileHasher iteration is followed piece by piece (the layer "
+            "hashes are the piece roots of the bytes consumed so far; at the end the root is the merkle root over the padded piece layer of "
+            "the whole file), so the leaf carries the BEP 52 root of the content; for a directory the value returned is tree_of(path) "
+            "(induction over the tree through this contract at the recursive call) and piece layers gains a key exactly for the files "
+            "larger than one piece")
 
 
 def _v2_setup(p, env):
@@ -319,6 +383,7 @@ def register_traverse_v2(reg):
       params={"self": {"cls": "torrentfile.torrent.TorrentFileV2",
                        "fields": {"piece_layers": "dict", "piece_length": "int", "path": "str"}}, "path": "str"},
       setup=_v2_setup,
+      fork_checks=True,
       modifies=["self.piece_layers"],
       exists={"fhash": HV2},
       ghost={"k": "bytes"},
@@ -334,6 +399,7 @@ def register_traverse_v2(reg):
                        "fields": {"piece_layers": "dict", "piece_length": "int", "path": "str", "files": "list", "pieces": "list[bytes]",
                                   "hashes": "list", "pad_flag": "bool"}}, "path": "str"},
       setup=_hybrid_setup,
+      fork_checks=True,
       modifies=["self.piece_layers", "self.files", "self.pieces", "self.hashes"],
       exists={"file_hash": HHY},
       ghost={"k": "bytes"},
@@ -392,6 +458,7 @@ def register_assemble_v2(reg):
       params={"self": {"cls": "torrentfile.torrent.TorrentFileV2",
                        "fields": {"meta": "dict", "name": "str", "piece_layers": "dict", "piece_length": "int", "path": "str"}}},
       setup=_v2_setup,
+      fork_checks=True,
       ghost={"k": "bytes"},
       requires=common_req,
       ensures=ens("fhash"),
@@ -404,6 +471,7 @@ def register_assemble_v2(reg):
                        "fields": {"meta": "dict", "name": "str", "piece_layers": "dict", "piece_length": "int", "path": "str", "files": "list",
                                   "pieces": "list[bytes]", "hashes": "list", "pad_flag": "bool"}}},
       setup=_hybrid_setup,
+      fork_checks=True,
       ghost={"k": "bytes"},
       requires=common_req + ["len(self.pieces) == 0", f"self.pad_flag == (not {SINGLE})"],
       ensures=ens("file_hash") + [
@@ -422,15 +490,16 @@ def register_assemble_v2(reg):
                                   "piece_layers": "dict", "piece_length": "int", "path": "str"}}},
       setup=_assembler_setup,
       ghost={"k": "bytes"},
-      requires=common_req + ["fs_isfile(self.path)", "not self.pad_flag"],
-      ensures=[cl for cl in ens("hasher", walk=False) if cl[1] not in ("pieces_root_is_the_merkle_root_over_the_padded_piece_layer",
+      requires=common_req + [f"self.pad_flag == (not {SINGLE})"],
+      fork_checks=True,
+      ensures=[cl for cl in ens("hasher", walk=True) if cl[1] not in ("pieces_root_is_the_merkle_root_over_the_padded_piece_layer",
                                                            "padded_piece_layer_is_the_piece_layer_of_the_content_then_zero_piece_roots",
                                                            "padded_to_the_next_power_of_two", "the_entry_is_the_piece_layer_of_the_content")] + [
           ("C02", "root_and_layer_come_from_the_file_hasher",
-           f"implies(len(fs_data(self.path)) > 0, {NODE}['']['pieces root'] == hasher.root) and "
-           f"implies(len(fs_data(self.path)) > self.piece_length, self.meta['piece layers'][hasher.root] == layers)"),
-          ("C03", "single_file_hybrid_has_no_file_list", f"not ('files' in {INFO}) or ('files' in old({INFO}))"),
+           f"implies({SINGLE} and len(fs_data(self.path)) > 0, {NODE}['']['pieces root'] == file_root(fs_data(self.path), {AM})) and "
+           f"implies({SINGLE} and len(fs_data(self.path)) > self.piece_length, self.meta['piece layers'][hasher.root] == layers)"),
+          ("C03", "single_file_hybrid_has_no_file_list", f"implies({SINGLE}, not ('files' in {INFO}) or ('files' in old({INFO})))"),
       ],
       raises={"BaseException": {}},
-      notes="single-file payload, the creator behind the command line; root / layer are those the FileHasher iteration produced "
-            "(FileHasher.__next__ contract per piece)")
+      notes="the creator behind the command line, single file and directory: the file tree is tree_of(path) / {name: leaf with the "
+            "BEP 52 root of the content}, piece layers has a key exactly for the files larger than a piece")
